@@ -34,6 +34,7 @@ type expr struct {
 type fnlit struct {
 	Params []string
 	Body   []*stmt
+	VarArg bool // the last parameter is variadic (rendering only: the shape decides which adapter the interpreter builds)
 }
 
 type cond struct {
@@ -117,7 +118,11 @@ func renderExpr(e *expr, ind string) string {
 		}
 		return fmt.Sprintf("%s + %d", e.N, e.C)
 	case 'f':
-		return "func(" + strings.Join(e.Fn.Params, ", ") + ") {\n" + render(e.Fn.Body, ind+"  ") + ind + "}"
+		va := ""
+		if e.Fn.VarArg {
+			va = "..."
+		}
+		return "func(" + strings.Join(e.Fn.Params, ", ") + va + ") {\n" + render(e.Fn.Body, ind+"  ") + ind + "}"
 	case 'z':
 		return "nil"
 	}
@@ -241,7 +246,11 @@ func render(b []*stmt, ind string) string {
 			}
 			sb.WriteString(s.Name + "(" + strings.Join(as, ", ") + ")")
 		case opAnonCall:
-			sb.WriteString(renderExpr(s.E, ind) + "()")
+			var as []string
+			for _, a := range s.Args {
+				as = append(as, renderExpr(a, ind))
+			}
+			sb.WriteString(renderExpr(s.E, ind) + "(" + strings.Join(as, ", ") + ")")
 		case opUnpack:
 			fmt.Fprintf(&sb, "a, b = [%d, %d]", s.N, s.N+1)
 		default:
@@ -709,7 +718,16 @@ func (m *machine) exec(st *stmt, s *mscope) sig {
 		return m.call(f, args)
 	case opAnonCall:
 		f, _ := m.eval(st.E, s)
-		return m.call(f, nil)
+		// the arguments are expressions of the CALLER's scope
+		var args []mval
+		for _, a := range st.Args {
+			v, ok := m.eval(a, s)
+			if !ok {
+				return sErr
+			}
+			args = append(args, v)
+		}
+		return m.call(f, args)
 	case opUnpack:
 		// every target follows the plain-assignment rule on its own
 		s.assign("a", mval{k: 'i', n: st.N})
